@@ -286,3 +286,27 @@ CHECKS["C17"] = dict(
 
 NOT_YET = "check not built yet in this round (planned in DESIGN.md §5); not claimed"
 NOT_APPLICABLE = {}
+
+CHECKS["C23"] = dict(
+    category="exploration",
+    text="Evidence-free generated programs (C01 generator, AD family, cyclic family). The k-best evaluator is run to "
+         "completion and with convergence thresholds 0.5 / 0.1; every reported value or interval is compared with the exact "
+         "probability computed by TLC from Semantics.tla: lower <= P <= upper, a single value equals P, complete runs are "
+         "tight. With explain=[] the proof blocks are read back: per query the proof probabilities sum to P, and the block "
+         "is printed under the query's own name.",
+    design_ref="DESIGN.md §5 C23", note=SEM_NOTE + " The search schedule inside Border.update (which proof MaxSAT returns "
+    "next) is not modelled; its soundness is judged on the reported bounds.",
+    technique="differential check of the k-best bounds / explanation sums against the TLA+ Semantics oracle (TLC)")
+
+CHECKS["C24"] = dict(
+    category="exploration",
+    text="Generated programs with 1-3 tunable facts (explicit or random initial value), fixed probabilistic facts, an optional "
+         "tunable annotated disjunction (with / without body, optionally with a fixed head) and derived atoms with negation; "
+         "3-10 examples sampled from a reference distribution, completely or partially observed. LFIProblem is stepped six "
+         "times under three option sets (CLI defaults, API defaults, log space); the recorded history (log-likelihood and all "
+         "parameters after every iteration) is judged by TLC (JudgeLFI.tla): no decrease, every parameter in [0,1], AD sums, "
+         "complete-data relative frequencies. For AD-free programs the first update is additionally compared with the exact "
+         "EM update computed from Semantics.tla posteriors.",
+    design_ref="DESIGN.md §5 C24", note="Histories are passed to TLC in micro-units (tolerance 2e-6). Runs that abort with an "
+    "error report no history and are counted, not judged. Non-ground tunable facts and t(_,X) parameters are not generated.",
+    technique="recorded learning histories judged by a TLA+ judge (TLC) plus an exact first-step EM oracle from the TLA+ Semantics spec")
